@@ -42,5 +42,12 @@ Example C24_example_at_limit :
                    fn_flows := repeat {| fl_access := AccRW;
                                          fl_deps := repeat {| dp_in := true; dp_guard := GTernary; dp_ldefs := 0; dp_ct := 0; dp_cf := 0 |} 5 ++
                                                     [ {| dp_in := false; dp_guard := GBinary; dp_ldefs := 1; dp_ct := 1; dp_cf := 0 |} ] ++
-                                                    repeat {| dp_in := false; dp_guard := GBinary; dp_ldefs := 0; dp_ct := 0; dp_cf := 0 |} 9 |} 20 |} ] |} = true.
+                                                    repeat {| dp_in := false; dp_guard := GBinary; dp_ldefs := 0; dp_ct := 0; dp_cf := 0 |} 9 |} 2 ++
+                               [ {| fl_access := AccRW;
+                                    fl_deps := repeat {| dp_in := true; dp_guard := GBinary; dp_ldefs := 0; dp_ct := 0; dp_cf := 0 |} 10 ++
+                                               repeat {| dp_in := false; dp_guard := GBinary; dp_ldefs := 0; dp_ct := 0; dp_cf := 0 |} 3 |} ] |} ;
+                               (* the class above: 20 input and 23 output dependency indices (10+10+3), the most jdf_flatten_function accepts for outputs; below: 20 flows *)
+                               {| fn_locals := 20; fn_pdefs := 0;
+                                  fn_flows := repeat {| fl_access := AccRead;
+                                                        fl_deps := [ {| dp_in := true; dp_guard := GUncond; dp_ldefs := 0; dp_ct := 0; dp_cf := 0 |} ] |} 20 |} ] |} = true.
 Proof. vm_compute. reflexivity. Qed.
